@@ -510,6 +510,7 @@ def structure(cfg, data, dec):
         st["core_proj_dev"] = qe(rel(np.asarray(core) - proj, data))
         st["colnorm_dev"] = qe(max([abs(v - 1.0) for f in fs for v in col_norms(f) if v > 1e-12] + [0.0]))
         st["mins"] = mins([core] + list(fs))
+        st["zero_factor"] = bool(any(not np.any(np.asarray(f)) for f in fs))
     elif kind == "parafac2":
         w, fs, Ps = dec[1], dec[2], dec[3]
         st["shapes"] = [list(np.shape(f)) for f in fs]
